@@ -25,6 +25,9 @@ structure Site where
   /-- the enclosing function tests the parsed document's doctype (`.systemId` / `.publicId`) and raises:
       the explicit external-subset refusal of `ODF2MoinMoin._parse` -/
   doctypeGuard : Bool
+  /-- number of TEXT transformers the enclosing function applies to the member between reading it from the zip
+      and handing it to the parser (`xmlpart = __fixXmlPart(xmlpart)` in `__loadxmlparts`); decode / encode excluded -/
+  prep : Nat
 deriving DecidableEq, Repr
 
 end OdfModel.ParseSite
